@@ -111,6 +111,14 @@ pub fn descriptor(id: &[u8]) -> PublicKeyCredentialDescriptor {
     PublicKeyCredentialDescriptor { ty: PublicKeyCredentialType::PublicKey, id: id.to_vec().into(), transports: None }
 }
 
+pub fn descriptor_typed(id: &[u8], known_type: bool) -> PublicKeyCredentialDescriptor {
+    PublicKeyCredentialDescriptor {
+        ty: if known_type { PublicKeyCredentialType::PublicKey } else { PublicKeyCredentialType::Unknown },
+        id: id.to_vec().into(),
+        transports: None,
+    }
+}
+
 pub fn mc_request(
     rp_id: &str,
     user_id: &[u8],
